@@ -162,6 +162,12 @@ Definition C14_holds_on (udp : bool) (a : list aent) (w : list went) (junk panic
 
 Definition c14_run (case obs : list string) : string :=
   match case with
+  | ["json"] =>
+      (* SendJSONRecord over UDP: the number of datagrams at the peer that are not JSON objects *)
+      match obs with
+      | ["B"; "0"] => "B 0 | T T"
+      | _ => "REJECTED a-non-JSON-message-was-put-into-a-JSON-stream | F T"
+      end
   | ["leak"] =>
       match obs with
       | ["G"; "0"] => "G 0 | T T"
